@@ -17,6 +17,7 @@ Strings are lower-case hex (`-` = empty string); lists are comma separated
   walk tree=<list> d=<s>             listAllFiles(<srcDir>/d), relative, sorted -> ok <list> | err
   fset p=<s> tree=<list> name=<s> files=<list> sel=<list> ign=<list> inc=<list>
                                      newFileSet -> ok name=<s> files=<list> inc=<list> out=<s> | err
+  rebuild <same fields> tree2=<list>  two Builds on one Builder, sources changed in between -> <build> ;; <build>
   build <same fields>                real Builder.Build of that one rule -> built files=<list> | err
 -/
 import PubModel.C12.Glue
@@ -43,6 +44,16 @@ def showM : MatchRes → String
   | .yes => "yes" | .no => "no" | .bad => "bad"
 
 def treeOf (l : List Str) : Tree := l.map segsOf
+
+/-- one real Build of one file_set rule: readBuildFile rejects a rule named like its package;
+    the loader resolves every file of the set as a regular source file -/
+def buildOut (p : Str) (t : List Str) (r : FsRule) : String :=
+  match newFileSet genCfg (treeOf t) p r with
+  | some o =>
+    if o.name = p then "err"
+    else if o.files.all (fun f => isFile (treeOf t) (segsOf f)) then s!"built files={showL o.files}"
+    else "err"
+  | none => "err"
 
 def step (_ : Unit) (line : String) : Unit × String :=
   let ws := words line
@@ -131,15 +142,15 @@ def step (_ : Unit) (line : String) : Unit × String :=
       match kvS rest "p", kvL rest "tree", kvS rest "name", kvL rest "files", kvL rest "sel",
             kvL rest "ign", kvL rest "inc" with
       | some p, some t, some name, some files, some sel, some ign, some inc =>
-        if PlainPath p ∧ inc = [] then
-          match newFileSet genCfg (treeOf t) p ⟨name, files, sel, ign, inc⟩ with
-          | some o =>
-            -- readBuildFile: a rule named like its package has no name; the loader
-            -- resolves every file of the set as a regular source file
-            if o.name = p then "err"
-            else if o.files.all (fun f => isFile (treeOf t) (segsOf f)) then s!"built files={showL o.files}"
-            else "err"
-          | none => "err"
+        if PlainPath p ∧ inc = [] then buildOut p t ⟨name, files, sel, ign, inc⟩ else "bad-op"
+      | _, _, _, _, _, _, _ => "bad-op"
+    | "rebuild" :: rest =>
+      -- two Builds on one Builder, the source tree changed in between: each is judged on its own tree
+      match kvS rest "p", kvL rest "tree", kvL rest "tree2", kvS rest "name", kvL rest "files", kvL rest "sel",
+            kvL rest "ign" with
+      | some p, some t, some t2, some name, some files, some sel, some ign =>
+        if PlainPath p then
+          buildOut p t ⟨name, files, sel, ign, []⟩ ++ " ;; " ++ buildOut p t2 ⟨name, files, sel, ign, []⟩
         else "bad-op"
       | _, _, _, _, _, _, _ => "bad-op"
     | _ => "bad-op"
